@@ -40,7 +40,8 @@ const WARN_EMPTY_RULE: &[u8] = b"token A='a';\nstart s;\ns: A x;\nx:;\n";
 const SYN_PAREN: &[u8] = b"token A='a';\nstart s;\ns: A (;\n";
 const SYN_SEMICOLONS: &[u8] = b"token A='a'\nstart s\ns: A;\n";
 const SEM_UNDEFINED: &[u8] = b"token A='a';\nstart s;\ns: A t;\n";
-const SEM_LL1: &[u8] = b"token A='a';\nstart s;\ns: A | A;\n";
+// an error (E011) followed by a warning (W002 is reported by a later pass): the last diagnostic is not the error
+const SEM_LL1: &[u8] = b"token A='a' B='b';\nstart s;\ns: A | A;\n";
 const UTF8_BAD: &[u8] = b"token A=\xff\xfe;";
 const UTF8_TAIL: &[u8] = b"token A='a' B='b';\nstart s;\ns: A b*;\nb: B;\n// \xc3\x28\n";
 
